@@ -14,40 +14,46 @@ def Sphere3.circumscribe {α : Type} [Add α] [Sub α] [Mul α] [Div α] [Neg α
 
 /-- extracted from the C++ template at T = Sym; 4 path(s) -/
 def Sphere3.intersectT {α : Type} [Add α] [Sub α] [Mul α] [Div α] [Neg α] [LT α] [DecidableLT α] [OfNat α 0] [OfNat α 1] [OfNat α 2] [OfNat α 4] (sqrt : α → α) (s : Sphere3 α) (l : Line3 α) : (Bool × α) :=
-  let t861 := ((2 : α) * (((l.dir.x * (l.pos.x - s.center.x)) + (l.dir.y * (l.pos.y - s.center.y))) + (l.dir.z * (l.pos.z - s.center.z))))
-  let t885 := ((t861 * t861) - ((4 : α) * ((((((l.pos.x * l.pos.x) + (l.pos.y * l.pos.y)) + (l.pos.z * l.pos.z)) - ((2 : α) * (((l.pos.x * s.center.x) + (l.pos.y * s.center.y)) + (l.pos.z * s.center.z)))) + (((s.center.x * s.center.x) + (s.center.y * s.center.y)) + (s.center.z * s.center.z))) - (s.radius * s.radius))))
-  let t886 := (sqrt t885)
-  let t887 := (-t861)
-  let t889 := ((t887 - t886) * ((1 : α) / (2 : α)))
-  let t891 := ((t887 + t886) * ((1 : α) / (2 : α)))
-  if t885 < (0 : α) then
+  let t853 := (l.pos.z - s.center.z)
+  let t854 := (l.pos.y - s.center.y)
+  let t855 := (l.pos.x - s.center.x)
+  let t861 := ((2 : α) * (((l.dir.x * t855) + (l.dir.y * t854)) + (l.dir.z * t853)))
+  let t872 := ((t861 * t861) - ((4 : α) * ((((t855 * t855) + (t854 * t854)) + (t853 * t853)) - (s.radius * s.radius))))
+  let t873 := (sqrt t872)
+  let t874 := (-t861)
+  let t876 := ((t874 - t873) * ((1 : α) / (2 : α)))
+  let t878 := ((t874 + t873) * ((1 : α) / (2 : α)))
+  if t872 < (0 : α) then
     (false, (0 : α))
   else
-    if t889 < (0 : α) then
-      if t891 < (0 : α) then
-        (false, t891)
+    if t876 < (0 : α) then
+      if t878 < (0 : α) then
+        (false, t878)
       else
-        (true, t891)
+        (true, t878)
     else
-      (true, t889)
+      (true, t876)
 
 /-- extracted from the C++ template at T = Sym; 4 path(s) -/
 def Sphere3.intersect {α : Type} [Add α] [Sub α] [Mul α] [Div α] [Neg α] [LT α] [DecidableLT α] [OfNat α 0] [OfNat α 1] [OfNat α 2] [OfNat α 4] (sqrt : α → α) (s : Sphere3 α) (l : Line3 α) : (Bool × (V3 α)) :=
-  let t861 := ((2 : α) * (((l.dir.x * (l.pos.x - s.center.x)) + (l.dir.y * (l.pos.y - s.center.y))) + (l.dir.z * (l.pos.z - s.center.z))))
-  let t885 := ((t861 * t861) - ((4 : α) * ((((((l.pos.x * l.pos.x) + (l.pos.y * l.pos.y)) + (l.pos.z * l.pos.z)) - ((2 : α) * (((l.pos.x * s.center.x) + (l.pos.y * s.center.y)) + (l.pos.z * s.center.z)))) + (((s.center.x * s.center.x) + (s.center.y * s.center.y)) + (s.center.z * s.center.z))) - (s.radius * s.radius))))
-  let t886 := (sqrt t885)
-  let t887 := (-t861)
-  let t889 := ((t887 - t886) * ((1 : α) / (2 : α)))
-  let t891 := ((t887 + t886) * ((1 : α) / (2 : α)))
-  if t885 < (0 : α) then
+  let t853 := (l.pos.z - s.center.z)
+  let t854 := (l.pos.y - s.center.y)
+  let t855 := (l.pos.x - s.center.x)
+  let t861 := ((2 : α) * (((l.dir.x * t855) + (l.dir.y * t854)) + (l.dir.z * t853)))
+  let t872 := ((t861 * t861) - ((4 : α) * ((((t855 * t855) + (t854 * t854)) + (t853 * t853)) - (s.radius * s.radius))))
+  let t873 := (sqrt t872)
+  let t874 := (-t861)
+  let t876 := ((t874 - t873) * ((1 : α) / (2 : α)))
+  let t878 := ((t874 + t873) * ((1 : α) / (2 : α)))
+  if t872 < (0 : α) then
     (false, ⟨(0 : α), (0 : α), (0 : α)⟩)
   else
-    if t889 < (0 : α) then
-      if t891 < (0 : α) then
+    if t876 < (0 : α) then
+      if t878 < (0 : α) then
         (false, ⟨(0 : α), (0 : α), (0 : α)⟩)
       else
-        (true, ⟨(l.pos.x + (l.dir.x * t891)), (l.pos.y + (l.dir.y * t891)), (l.pos.z + (l.dir.z * t891))⟩)
+        (true, ⟨(l.pos.x + (l.dir.x * t878)), (l.pos.y + (l.dir.y * t878)), (l.pos.z + (l.dir.z * t878))⟩)
     else
-      (true, ⟨(l.pos.x + (l.dir.x * t889)), (l.pos.y + (l.dir.y * t889)), (l.pos.z + (l.dir.z * t889))⟩)
+      (true, ⟨(l.pos.x + (l.dir.x * t876)), (l.pos.y + (l.dir.y * t876)), (l.pos.z + (l.dir.z * t876))⟩)
 
 end ImathVerif.Gen
